@@ -1289,9 +1289,10 @@ def variants(tier: str) -> List[Dict[str, Any]]:
     def dm():
         return scenarios.shipped("data_manipulation.yaml")
 
-    def add(label, cfg, episodes, steps, extras=(), constant=True, p_extra=0.5, note=""):
+    def add(label, cfg, episodes, steps, extras=(), constant=True, p_extra=0.5, note="", script=()):
+        # `script`: indices into `extras` played first in every episode (then the seeded random driver takes over)
         V.append(dict(label=label, cfg=cfg, episodes=episodes, steps=steps, extras=list(extras), constant=constant,
-                      p_extra=p_extra, note=note))
+                      p_extra=p_extra, note=note, script=[None if i is None else list(extras)[i] for i in script]))
 
     add("data_manipulation(flattened, as shipped)", dm(), 2 if quick else 3, 40 if quick else 128)
     c = dm()
@@ -1334,7 +1335,8 @@ def variants(tier: str) -> List[Dict[str, Any]]:
     _proxy(c)["agent_settings"]["flatten_obs"] = False
     ex = _add_actions(c, [_acl_rule(3, "DENY", "10.9.9.9", "ALL"), _acl_rule(4, "DENY", "ALL", "ALL", "FTP", "FTP", "TCP"),
                           _acl_rule(5, "PERMIT", C1_IP, DB_IP, "ALL", "ALL", "ALL", "0.0.0.255", "0.0.0.255")])
-    add("data_manipulation(nested, ACL rules naming values outside ip_list/port_list/wildcard_list)", c, 2, 12, ex, p_extra=0.34)
+    add("data_manipulation(nested, ACL rules naming values outside ip_list/port_list/wildcard_list)", c, 2, 12, ex, p_extra=0.34,
+        script=(1, 2, None, 0))
     for flat in (False, True):
         c = dm()
         c["simulation"]["network"]["nmne_config"]["capture_nmne"] = False
@@ -1345,7 +1347,8 @@ def variants(tier: str) -> List[Dict[str, Any]]:
     _proxy(c)["agent_settings"]["flatten_obs"] = False
     ex = _add_actions(c, [(f"node-application-{verb}", dict(node_name="client_2", application_name="web-browser"))
                           for verb in ("remove", "install", "execute", "execute")])
-    add("data_manipulation(rich obs, web-browser removed, installed again and executed)", c, 1, 30, ex, p_extra=0.6)
+    add("data_manipulation(rich obs, web-browser removed, installed again and executed)", c, 1, 30, ex, p_extra=0.6,
+        script=(0, None, 1, None, None, None, 2))
     add("uc7_config", scenarios.shipped("uc7_config.yaml"), 2, 30 if quick else 128)
     add("scenario_with_placeholders(episode schedule)", str(scenarios.PKG / "scenario_with_placeholders"), 5, 20 if quick else 60,
         constant=False, note="episode-scheduled directory: not a constant scenario; digests logged, constancy not demanded")
@@ -1435,7 +1438,11 @@ def run_variant(prop: str, v: Dict[str, Any], seed: int, stats: Dict[str, Any]) 
         record(obs, ep, 0, walkers)
         n = env.action_space.n
         for st in range(1, v["steps"] + 1):
-            a = rng.choice(v["extras"]) if v["extras"] and rng.random() < v["p_extra"] else rng.randrange(n)
+            if st <= len(v.get("script") or []):
+                a = v["script"][st - 1]
+                a = 0 if a is None else a
+            else:
+                a = rng.choice(v["extras"]) if v["extras"] and rng.random() < v["p_extra"] else rng.randrange(n)
             stim["actions"].append(a)
             try:
                 obs, *_ = env.step(a)
